@@ -15,6 +15,8 @@ open JetVerif.Props.C02L
 #print axioms buffer_discipline
 #print axioms expression_never_crashes
 #print axioms lexer_never_crashes
-#print axioms lexer_items_lie_in_the_source
+#print axioms lexer_items_are_well_formed
+#print axioms lexer_output_satisfies_parser_assumptions
+#print axioms parseSource_error_names_a_source_line
 #print axioms every_state_function_is_safe
 #print axioms parseSource_never_crashes
